@@ -14,12 +14,13 @@ from symx.stubs import stubbed
 META = dict(
     bounds=dict(
         quick="construction with 14 argument subsets of {atnums, atcorenums, charge, nelec, spinpol, mo, atcoords} "
-              "followed by every operation sequence of length <= 2 over 19 operations (assign/clear atnums (2 and 3 "
-              "atoms), atcorenums (2/3), charge, nelec, spinpol, mo, atcoords (None/2/3 atoms); read charge; read all), and from three starting points over all 27 "
-              "operations (adds atmasses, atgradient, atfrozen of 2/3 atoms, read atcorenums, read natom); all "
+              "followed by every operation sequence of length <= 2 over 20 operations (assign/clear atnums (2 and 3 "
+              "atoms), atcorenums (2/3), charge, nelec, spinpol, mo, atcoords (None/2/3 atoms); read charge; read all), and from three starting points over all 28 "
+              "operations (adds atmasses, atgradient, atfrozen of 2/3 atoms, read atcorenums, read natom, clear spinpol); all "
               "real values of charge, nelec, spinpol, core charges and orbital occupations",
-        thorough="all 128 construction subsets, sequences of length <= 3 over 27 operations (adds atmasses, atgradient, "
-                 "atfrozen of 2/3 atoms, read atcorenums, read natom)"),
+        thorough="all 128 construction subsets followed by every operation sequence of length <= 3 over the 20 operations of "
+                 "the quick tier; from the 14 construction subsets of the quick tier every sequence of length <= 3 over all 28 "
+                 "operations (adds atmasses, atgradient, atfrozen of 2/3 atoms, read atcorenums, read natom, clear spinpol)"),
     outside=["histories longer than the depth", "arrays of more than 3 atoms", "float rounding"],
     assumptions=["exact real arithmetic", "numpy replaced by symnp in iodata.iodata/attrutils/orbitals",
                  "weaker readings: an assignment that keeps the arrays consistent may still be refused; "
@@ -336,8 +337,9 @@ def jobs(tier):
                     out.append(job("C11", f"history[ctor={'+'.join(ctor)}]", M, "h_history",
                                    dict(ctor=list(ctor), depth=0, ops="all"), budget_s=60))
                     continue
+                full = ctor in CTOR_QUICK
                 out.append(job("C11", f"history[ctor={'+'.join(ctor) or 'none'}]", M, "h_history",
-                               dict(ctor=list(ctor), depth=3, ops="all"), budget_s=3000, max_validate=25,
+                               dict(ctor=list(ctor), depth=3, ops="all" if full else "quick"), budget_s=1500, max_validate=25,
                                max_paths=200000))
     out.append(job("C11", "history[twin]", M, "h_history", dict(ctor=["atnums"], depth=1, twin=True),
                    expect="cex"))
